@@ -77,13 +77,20 @@ def plans(prop, tier):
 
 def run(prop, tier):
     res = Result(prop, tier, "model_checking")
+    with Scratch(prop) as scratch:
+        binary = build_harness(scratch)
+        run_into(res, prop, tier, scratch, binary)
+    return res.finish()
+
+
+def run_into(res, prop, tier, scratch, binary):
+    """Runs the session part for `prop` and merges its coverage into res."""
     sd = seed()
     quick = tier == "quick"
     states = transitions = 0
     total = 0
     runs = []
-    with Scratch(prop) as scratch:
-        binary = build_harness(scratch)
+    if True:
         desc = []
         for (vo, tm, qcap, mm) in [(False, True, 3, 7 if quick else 8), (True, True, 3, 7), (False, False, 2, 6)]:
             out, st = run_tlc(scratch, "PeerSession", cfg({"VerifyOnly": vo, "HasTxMgr": tm, "QCap": qcap, "MaxMsgs": mm},
@@ -92,7 +99,7 @@ def run(prop, tier):
             tlc_ok(out, st, "PeerSession exhaustive")
             states += st["distinct"]
             transitions += st["generated"]
-            desc.append("verifyonly=%s txmgr=%s queue=%d msgs<=%d: %d distinct / %d generated" % (vo, tm, qcap, mm, st["distinct"], st["generated"]))
+            desc.append("PeerSession verifyonly=%s txmgr=%s queue=%d msgs<=%d: %d distinct / %d generated" % (vo, tm, qcap, mm, st["distinct"], st["generated"]))
 
         for i, (vo, tm, prefix, depth, alphabet, mode, num) in enumerate(plans(prop, tier)):
             c = gen_cfg(vo, tm, len(prefix) + depth, alphabet)
@@ -142,20 +149,23 @@ def run(prop, tier):
                 res.violation("%s (session %d step %d: %s)" % (d["msg"], beh, d["step"], " ".join(d.get("trace", []))),
                               {"engine": "sess", "behaviour": json.loads(d["line"]), "divergences": ds,
                                "seed": sd * 100 + i})
-    res.coverage.update({
-        "states": states, "transitions": transitions, "traces_validated_against_impl": total,
-        "evaluations": total, "distinct_nontrivial": total,
-        "rule": "sessions = sequences of inbound message classes generated by TLC from PeerSessionGen (BFS over the "
-                "alphabet after a forced prefix, and random simulation), each played by a scripted peer with real, "
-                "correctly framed messages (payload sizes chosen by seed) against a real BitcoinNode over net.Pipe; after "
-                "every message a ping barrier, then outputs / sink calls / node state are compared with the spec",
-        "exhaustive_cfgs": desc, "session_runs": runs, "exhaustive": False,
-    })
+    cov = res.coverage
+    cov["states"] = cov.get("states", 0) + states
+    cov["transitions"] = cov.get("transitions", 0) + transitions
+    cov["traces_validated_against_impl"] = cov.get("traces_validated_against_impl", 0) + total
+    cov["evaluations"] = cov.get("evaluations", 0) + total
+    cov["distinct_nontrivial"] = cov.get("distinct_nontrivial", 0) + total
+    cov["rule"] = (cov.get("rule", "") + " sessions = sequences of inbound message classes generated by TLC from PeerSessionGen "
+                   "(BFS over the alphabet after a forced prefix, and random simulation), each played by a scripted peer with "
+                   "real, correctly framed messages (payload sizes chosen by seed) against a real BitcoinNode over net.Pipe; "
+                   "after every message a ping barrier, then outputs / sink calls / node state are compared with the spec").strip()
+    cov["exhaustive_cfgs"] = cov.get("exhaustive_cfgs", []) + desc
+    cov["session_runs"] = runs
+    cov["exhaustive"] = False
     res.assumptions += ["the scripted peer waits for the handshake goroutine to go quiet after version/verack (the "
                         "asynchronous interleavings are covered by the exhaustive PeerSession configuration only)",
                         "a session that diverges is re-run once; only a divergence that repeats is reported",
                         "the 3 s handshake timeout, the 10 min ping period and the node timeout are not exercised"]
-    return res.finish()
 
 
 def replay(prop, path):
